@@ -809,8 +809,16 @@ def substitution_ownership_cases():
     return rewrap(PROP, c02.path_cases(), "location-substitution-owned", lambda c: "Path.branch" in c.unit)
 
 
+def etch_ref():
+    """a load returns the most recent store: vm.etch is not a store, it leaves storage and transient storage of an existing account alone (C14's unit)"""
+    from contracts import c14
+    from contracts.common import rewrap
+
+    return rewrap(PROP, c14.etch_cases(), "etch-is-not-a-store")
+
+
 def build_cases(tier="quick"):
-    return literal_before_hash_cases() + substitution_ownership_cases() + select_cases_c08() + sha3_tracking_cases() + transient_vs_symbolic_cases() + solidity_cases() + generic_cases() + sevm_cases() + offsetmap_cases() + empty_hash_cases()
+    return etch_ref() + literal_before_hash_cases() + substitution_ownership_cases() + select_cases_c08() + sha3_tracking_cases() + transient_vs_symbolic_cases() + solidity_cases() + generic_cases() + sevm_cases() + offsetmap_cases() + empty_hash_cases()
 
 
 def grounds():
